@@ -34,7 +34,7 @@ def run(rep, tier, seed):
     rep.negative_cfgs.append("MC_Schema_c15_wbu.cfg (a failed cast writes the original back over an earlier rule's cast)")
     rng = random.Random(seed + 15)
     events, recipes = [], {}
-    for s in range(1800 if tier == "quick" else 60000):
+    for s in range(4000 if tier == "quick" else 60000):
         doc = ruledrv.cast_document(rng, depth=rng.choice([1, 2, 3]))
         k = rng.choice([1, 2, 2, 3])
         rrs = [cast_rule(rng, doc) for _ in range(k)]
